@@ -469,9 +469,50 @@ func lookupRace(t *testing.T, r *evid.Run) {
 				}
 			}(g)
 		}
+		// in every other round the service keeps moving while the lookups race, so that two lookups that
+		// did not share a request may bring back different versions
+		moving := i%2 == 1
+		stopMove := make(chan struct{})
+		var mv sync.WaitGroup
+		if moving {
+			mv.Add(1)
+			go func() {
+				defer mv.Done()
+				for v := uint32(2); ; v++ {
+					select {
+					case <-stopMove:
+						return
+					default:
+					}
+					svc.Set(name, v, []byte(fmt.Sprintf("%s#early%d", name, v)))
+				}
+			}()
+		}
 		gate.Store(true)
 		wg.Wait()
-		svc.Set(name, 2, []byte(name+"#2"))
+		close(stopMove)
+		mv.Wait()
+		if moving {
+			// no poll yet: whatever the store serves now is the newest version it installed; every updater
+			// that exists must deliver exactly that
+			installed := string(st.Secret(name).Get())
+			for g := 0; g < G; g++ {
+				if ups[g] != nil {
+					r.Count("updaters_checked_after_racing_installs", 1)
+					if v := ups[g].Get(); v.from != installed {
+						r.Violation("stale-after-install", -1, fmt.Sprintf("lookups of %q raced while the service moved: the store now serves %q (its newest install), but an updater on it returns a value built from %q", name, installed, v.from), nil)
+						return
+					}
+				}
+				if handles[g] != nil {
+					if got := string(handles[g].Get()); got != installed {
+						r.Violation("stale-after-install", -1, fmt.Sprintf("lookups of %q raced while the service moved: Secret() serves %q but a handle given out by a lookup yields %q", name, installed, got), nil)
+						return
+					}
+				}
+			}
+		}
+		svc.Set(name, 1_000_000, []byte(name+"#2"))
 		if err := st.Refresh(context.Background()); err != nil {
 			t.Fatal(err)
 		}
